@@ -1160,10 +1160,15 @@ def rule_r8(prog, res) -> None:
     users = [f for f in prog.funcs if f.module is gb.module and f is not gb and any(gb in prog.resolve_call(f, c).funcs() for c in calls_in(f)) and any(q for q in f.param_names() if "weight_scale" in q or "rweight" in q)]
     if not users:
         raise AnalysisError("C01.R8: the counting function that uses the weighting grid was not found")
-    for f in users:
-        res.touch(f)
+    from ..inline import inlined as _inl8
+    from .common import expand_locals as _xl8
+
+    for f0 in users:
+        res.touch(f0)
+        f = _inl8(prog, f0, keep={gb.name, "logarithmic_mid", "dispatch_counts", "get_counts_for_limits"}, desugar=True)  # an extracted weighting helper is expanded in place
         ws = next(q for q in f.param_names() if "weight_scale" in q or "rweight" in q)
-        wdefs = [x for x in walk_no_nested(f.node) if isinstance(x, ast.Assign) and len(x.targets) == 1 and isinstance(x.targets[0], ast.Name) and any(isinstance(y, ast.BinOp) and isinstance(y.op, ast.Pow) and any(isinstance(z, ast.Name) and z.id == ws for z in ast.walk(y.right)) for y in ast.walk(x.value))]
+        ws_names = {ws} | {x.targets[0].id for x in walk_no_nested(f.node) if isinstance(x, ast.Assign) and len(x.targets) == 1 and isinstance(x.targets[0], ast.Name) and isinstance(x.value, ast.Name) and x.value.id == ws}
+        wdefs = [x for x in walk_no_nested(f.node) if isinstance(x, ast.Assign) and len(x.targets) == 1 and isinstance(x.targets[0], ast.Name) and any(isinstance(y, ast.BinOp) and isinstance(y.op, ast.Pow) and any(isinstance(z, ast.Name) and z.id in ws_names for z in ast.walk(y.right)) for y in ast.walk(x.value))]
         if len(wdefs) != 1:
             raise AnalysisError(f"C01.R8: the separation weights (… ** {ws}) of {f.short} were not found")
         wname = wdefs[0].targets[0].id
@@ -1177,8 +1182,19 @@ def rule_r8(prog, res) -> None:
                 fac = x.value.right if any(isinstance(y, ast.Name) and y.id == wname for y in ast.walk(x.value.right)) else x.value.left
             if fac is not None:
                 applied.append((x, fac))
+        # (a factor that arrives through a local, e.g. the value returned by an expanded helper)
+        for x in walk_no_nested(f.node):
+            cand = None
+            if isinstance(x, ast.AugAssign) and isinstance(x.op, ast.Mult) and isinstance(x.value, ast.Name):
+                cand = x.value
+            elif isinstance(x, ast.Assign) and isinstance(x.value, ast.BinOp) and isinstance(x.value.op, ast.Mult) and x is not wdefs[0]:
+                cand = next((o for o in (x.value.right, x.value.left) if isinstance(o, ast.Name)), None)
+            if cand is not None and not any(x is a_ for a_, _f in applied):
+                full = _xl8(f.node, cand, {wname} | set(f.param_names()), depth=4)
+                if any(isinstance(y, ast.Name) and y.id == wname for y in ast.walk(full)):
+                    applied.append((x, full))
         if not applied:
-            res.violation("C01.R8", f, wdefs[0], f"the separation weights `{wname}` are computed but never multiplied into the counts: the weighted measurement silently equals the unweighted one", key_extra="weights-not-applied")
+            res.violation("C01.R8", f0, wdefs[0], f"the separation weights `{wname}` are computed but never multiplied into the counts: the weighted measurement silently equals the unweighted one", key_extra="weights-not-applied")
             continue
         for x, fac in applied:
             d = homog.degree(fac, atom)
